@@ -140,7 +140,13 @@ let rec gen (s : schema) (size : int) : val0 =
           end) (klist_to_list fs))
   | SVar alts -> let l = vlist_to_list alts in let i = below (List.length l) in
     let (_, fs) = List.nth l i in VVar (nat_of_int i, List.map (fun f -> gen f (size - 1)) (slist_to_list fs))
-  | SArrOf (lo, s') -> let n = coll_len (int_of_n lo) size in VList (List.init n (fun _ -> gen s' (size - 2)))
+  | SArrOf (lo, s') ->
+    (* long arrays of whole transaction bodies / witness sets only cost time (the 24/25 boundary of the array head is
+       exercised on every lighter element type) *)
+    let heavy = (match s' with SMap fs -> List.length (klist_to_list fs) > 6 | _ -> false) in
+    let n = coll_len (int_of_n lo) size in
+    let n = if heavy then min n 3 else n in
+    VList (List.init n (fun _ -> gen s' (size - 2)))
   | SSetOf s' -> let n = coll_len 0 size in VList (dedup s' (List.init n (fun _ -> gen s' (size - 2))))
   | SMapOf (lo, ord, k, v) ->
     let n = coll_len (int_of_n lo) size in
